@@ -351,11 +351,15 @@ def check_e2e(ctx: Ctx, case) -> None:
         t = 0 if i == 0 else t + gap
         if big:
             n = max(n, 10 ** 6) if big <= 4 else 10 ** 9 - n % 7
+        if i and gap % 5 == 0:
+            n = bpms[-1][1]            # a tempo line that restates the tempo in force is an event all the same
         bpms.append((t + (off if i else 0), n))
     tss = [(0, case["ts0"][0], case["ts0"][1])]
     tt = 0
     for gap, u, l in case["tsig"]:
         tt += gap
+        if u % 7 == 0:
+            u, l = tss[-1][1], tss[-1][2]      # the signature in force, written again
         tss.append((tt + (off if len(tss) > 1 else 0), u, l))
     anchors = sorted((a[0] + (off if k % 2 else 0), a[1]) for k, a in enumerate(case["anchors"]))
     merged = [(tk, 0, ["TS", u, l]) for tk, u, l in tss] + [(tk, 1, ["B", n]) for tk, n in bpms] + \
